@@ -271,6 +271,12 @@ int main(int argc, char **argv)
 		break;
 	}
 
+	/* listing, stat, xattr dump and description are written via stdio */
+	if (fflush(stdout) != 0 || ferror(stdout)) {
+		perror("writing to stdout");
+		goto out;
+	}
+
 	status = EXIT_SUCCESS;
 out:
 	sqfs_dir_tree_destroy(n);
